@@ -437,6 +437,28 @@ func init() {
 			k := c.Choose(1, 2, 3, 4, 8, 21, 31, len(s), len(s)+1, len(s)+7)
 			c.Run(kCanon, L(B(s), I(k)), true, "canon/"+strat)
 		}
+		// hairpins: k-mers X + M + revcomp(X) agree with their own reverse complement
+		// on the first |X| bases, so the strand choice is decided late (or, for an
+		// implementation that compares only a prefix, wrongly)
+		nh := c.Pick(400, 6000)
+		for i := 0; i < nh; i++ {
+			x := c.RandBytes(1+c.Intn(16), []byte("ACGT"))
+			m := c.RandBytes(c.Intn(4), []byte("ACGT"))
+			hp := append(append(append([]byte{}, x...), m...), rcRef(x)...)
+			if c.Intn(4) == 0 {
+				for j := range hp {
+					if c.Intn(3) == 0 {
+						hp[j] += 32
+					}
+				}
+			}
+			flank := c.RandBytes(c.Intn(3), []byte("ACGTN"))
+			sq := append(append(append([]byte{}, flank...), hp...), flank...)
+			c.Run(kCanon, L(B(sq), I(len(hp))), true, "canon/hairpin")
+			if len(hp) > 2 {
+				c.Run(kCanon, L(B(sq), I(len(hp)-1)), true, "canon/hairpin")
+			}
+		}
 	})
 
 	registerProp("C13", "exhaustive: all 256 single bytes and all 65,536 byte pairs through DNAFrom2Bit/DNATo2Bit, all DNA strings over aAcCgGtT up to length L, all 256 bytes for Ntoi and the to2bit accept/panic boundary, Iton on -3..8; random DNA up to length 1000 with dst prefixes; non-trivial = at least one base / one packed byte", func(c *Ctx) {
